@@ -57,6 +57,7 @@ type EngineCfg struct {
 	Files      map[string]string `json:"files"`      // glob under /verif -> destination dir (relative to /repo) ; file names kept
 	Rename     map[string]string `json:"rename"`     // exact file under /verif -> exact destination path relative to /repo
 	Instrument []string          `json:"instrument"` // args for tools/instrument (optional)
+	HideTests  []string          `json:"hide_tests"` // package dirs (relative to /repo) whose own *_test.go files are hidden
 	Go         string            `json:"go"`
 	Tags       string            `json:"tags"`
 }
@@ -123,6 +124,16 @@ func buildEngine(name string, e EngineCfg, mutantDir string) string {
 	}
 	for src, dst := range e.Rename {
 		add(filepath.Join(verifDir, src), dst)
+	}
+	// hide the package's own test files (their TestMain opens sockets etc.): an empty overlay
+	// target means "file does not exist"
+	for _, dir := range e.HideTests {
+		ms, _ := filepath.Glob(filepath.Join(repoDir, dir, "*_test.go"))
+		for _, f := range ms {
+			if _, mine := replace[f]; !mine {
+				replace[f] = ""
+			}
+		}
 	}
 	goBin := e.Go
 	if goBin == "" {
